@@ -30,7 +30,7 @@ PYEXN = {"AttributeError": 101, "ValueError": 102, "TypeError": 103, "KeyError":
 EXPLAIN = ("outcome: [0, value, tags] round trip returned `value` (node encoding: [0] None [1,b] bool [2,z] int [3,bits] float "
            "[4,[codepoints]] str [5,[..]] list [6,class id,payload,[kids]] object) and the JSON text carried `tags` in pre-order | "
            "[20,k] JSONSerializationError subclass k | [30,k] foreign exception | [40] model out of fuel | "
-           "[50] json.loads(json.dumps(j)) != j | [51] structurally equal but Python == says different")
+           "[50] json.loads(json.dumps(j)) != j | [53, c, x] the classmethod entry point <class c>.from_json gave x for the same document | [51] structurally equal but Python == says different")
 
 # ------------------------------------------------------------------ the class world
 # (cid, module, qualname path, kind, how it is created)   kind: S = SubclassJSONSerializer, R = registered, P = plain
@@ -68,6 +68,7 @@ CLASSES: List[Tuple[int, str, List[str], str, dict]] = [
     (78, "builtins", ["mappingproxy"], "R", {"real": types.MappingProxyType, "unbound": True}),
     (87, "c18w", ["Planner"], "P", {}),
     (86, "c18w", ["Planner", "__State"], "S", {"base": None, "define": True, "nested_in": 87, "bind_as": "_Planner__State", "unbound": True}),
+    (88, "c18w", ["RegFalsy"], "R", {}),   # (de)serialiser callables whose bool() is False (former finding C18-e, fixed by 6613437)
     (74, "c18w", ["SelfDescribing"], "R", {}),    # registered external type that has its OWN methods named to_json / from_json
     (76, "c18w", ["ClearedReg"], "R", {}),        # registered, used, registry singleton cleared, registered again on the new instance
     (70, "c18w", ["LateReg"], "R", {}),
@@ -243,6 +244,21 @@ def world() -> Dict[str, Any]:
     except Exception as e:  # noqa
         history["rereg:first_round_trip"] = type(e).__name__
     register(RR, lambda o: [o.x, o.y], lambda v: RR(v[0], v[1]))
+    # RegFalsy: registered with callable objects that are falsy (a callable list subclass holding no post-processing steps)
+    RF = cls[88]
+    RF.__init__ = lambda self, x=0, y=0: (setattr(self, "x", x), setattr(self, "y", y)) and None
+    RF.__eq__ = lambda self, o: type(o) is RF and vars(self) == vars(o)
+    RF.__hash__ = None
+
+    class Steps(list):
+        def __init__(self, fn):
+            super().__init__()
+            self.fn = fn
+
+        def __call__(self, *a, **kw):
+            return self.fn(*a, **kw)
+    JSONSerializableTypeRegistry().register(
+        RF, Steps(lambda o: {TAG: get_full_class_name(type(o)), "value": [o.x, o.y]}), Steps(lambda data, **kw: RF(data["value"][0], data["value"][1])))
     register(cls[80], lambda o: int(o), lambda v: cls[80](v))
     register(cls[81], lambda o: float(o), lambda v: cls[81](v))
     register(cls[82], lambda o: list(o), lambda v: cls[82](v))
@@ -302,16 +318,20 @@ def world_header() -> str:
 HEADER_BASE = """From Coq Require Import List ZArith Bool.
 From Krrood Require Import Base.Sx Json.JsonVal Json.SerializerSpec Gen.JsonResolve Json.Serializer.
 Import ListNotations. Open Scope Z_scope.
+Fixpoint deep_list (n : nat) : value jv := match n with O => VList [] | S k => VList [deep_list k] end.
 """
 HEADER_SPEC_BASE = """From Coq Require Import List ZArith Bool.
 From Krrood Require Import Base.Sx Json.JsonVal Json.SerializerSpec.
 Import ListNotations. Open Scope Z_scope.
 Definition world := list cls.
+Fixpoint deep_list (n : nat) : value jv := match n with O => VList [] | S k => VList [deep_list k] end.
 """
 
 
 def vterm(d) -> str:
     k = d[0]
+    if k == "deep":
+        return f"(deep_list {d[1]})"
     if k == "n":
         return "VNone"
     if k == "b":
@@ -333,6 +353,11 @@ def vterm(d) -> str:
 def build(d):
     w = world()
     k = d[0]
+    if k == "deep":                      # a list nested d[1] levels deep, built without recursion
+        v: list = []
+        for _ in range(d[1]):
+            v = [v]
+        return v
     if k == "n":
         return None
     if k in ("b", "i", "s"):
@@ -365,7 +390,7 @@ def build(d):
         return frozenset(own)
     if cid == 44:
         return datetime.date(own[0], own[1], own[2])
-    if cid in (70, 72, 74, 76):
+    if cid in (70, 72, 74, 76, 88):
         return c(own[0], own[1])
     if cid == 45:
         return c(own[0])
@@ -436,7 +461,7 @@ def enc(r):
         return [6, cid, enc_jv(sorted(r)), []]
     if cid == 44:
         return [6, cid, enc_jv([r.year, r.month, r.day]), []]
-    if cid in (70, 72, 74, 76):
+    if cid in (70, 72, 74, 76, 88):
         return [6, cid, enc_jv([r.x, r.y]), []]
     if cid == 45:
         return [6, cid, enc_jv([r.x]), []]
@@ -495,7 +520,7 @@ def run_impl(d) -> Any:
         j = to_json(v)
         text = json.dumps(j)
         j2 = json.loads(text)
-        if not typed_equal(plain_json(j), j2):
+        if d[0] != "deep" and not typed_equal(plain_json(j), j2):
             return [50]
         r = from_json(j2)
     except BaseException as e:  # noqa
@@ -503,9 +528,32 @@ def run_impl(d) -> Any:
         if isinstance(e, JSONSerializationError):
             return [20, JERR.get(name, 7)]
         return [30, PYEXN.get(name, 199)]
+    if d[0] == "deep":
+        limit = sys.getrecursionlimit()
+        sys.setrecursionlimit(20000)     # only for the harness's own recursive encoders; the implementation ran under the default
+        try:
+            return [0, enc(r), []]
+        finally:
+            sys.setrecursionlimit(limit)
     e_r, e_v = enc(r), enc(v)
     if e_r == e_v and not (r == v):
         return [51]
+    # the same document through the classmethod entry point <Class>.from_json of other serialiser classes: the class is named by
+    # the tag, never by the receiver.  Receivers: every serialiser class whose __name__ equals the last name of a tag in the text
+    # (e.g. c18z.Outer2.Inner for a document of c18z.Inner), and the base class.
+    last_names = {"".join(chr(c) for c in t).rsplit(".", 1)[-1] for t in tags_of(j)}
+    if last_names:
+        from krrood.adapters.json_serializer import SubclassJSONSerializer
+        w = world()
+        receivers = [(0, SubclassJSONSerializer)] + [(cid, c) for cid, c in sorted(w["cls"].items())
+                                                     if isinstance(c, type) and issubclass(c, SubclassJSONSerializer) and c.__name__ in last_names]
+        for cid, c in receivers:
+            try:
+                ra = enc(c.from_json(json.loads(text)))
+            except BaseException as e:  # noqa
+                ra = [30, PYEXN.get(type(e).__name__, 199)] if not isinstance(e, JSONSerializationError) else [20, JERR.get(type(e).__name__, 7)]
+            if ra != e_r:
+                return [53, cid, ra]
     return [0, e_r, tags_of(j)]
 
 
@@ -574,7 +622,7 @@ def gen_reg(rng) -> list:
         return ["o", 53, sorted({rng.randint(-9, 9) for _ in range(rng.randint(0, 4))}), []]
     if cid == 44:
         return ["o", 44, rng.choice(DAYS), []]
-    if cid in (70, 72, 74, 76):
+    if cid in (70, 72, 74, 76, 88):
         return ["o", cid, [rng.randint(-9, 9), rng.randint(-9, 9)], []]
     if cid == 45:
         return ["o", 45, [rng.randint(-9, 9)], []]
@@ -640,6 +688,8 @@ def has_class(e, cid) -> bool:
 
 def walk(d):
     yield d
+    if d[0] == "deep":
+        return
     if d[0] == "l":
         for x in d[1]:
             yield from walk(x)
@@ -649,6 +699,8 @@ def walk(d):
 
 
 def list_depth(d) -> int:
+    if d[0] == "deep":
+        return d[1] + 1
     if d[0] == "l":
         return 1 + max([list_depth(x) for x in d[1]] or [0])
     if d[0] == "o":
@@ -658,6 +710,8 @@ def list_depth(d) -> int:
 
 def findings_in(d) -> List[str]:
     """ids of the known-finding classes this value belongs to (decidable class predicates, mirrored by F in Coq)"""
+    if d[0] == "deep":
+        return ["C18-f"] if d[1] >= 450 else []
     return sorted({FINDING_OF[x[1]] for x in walk(d) if x[0] == "o" and x[1] in FINDING_OF})
 
 
@@ -682,6 +736,7 @@ def fixed_cases() -> List[list]:
     out += [["o", 47, [1, -2], []], ["o", 47, [0, 0], []], ["o", 48, [], []], ["o", 48, [0, 255, 10], []], ["o", 49, [0, 5, 1], []],
             ["o", 49, [3, -7, -2], []], ["o", 53, [], []], ["o", 53, [-1, 2, 7], []],
             ["l", [["o", 47, [3, 4], []], ["l", [["o", 48, [1], []]]], ["o", 13, "k", [["o", 49, [1, 9, 2], []], ["o", 53, [5], []]]]]]]
+    out += [["deep", 40], ["deep", 120], ["o", 88, [1, 2], []], ["l", [["o", 88, [0, 0], []], ["o", 10, 0, [["o", 88, [3, 4], []]]]]]]
     out += [["o", 74, [1, 2], []], ["o", 76, [3, 4], []], ["l", [["o", 74, [0, 1], []], ["o", 10, 0, [["o", 74, [2, 3], []], ["o", 76, [4, 5], []]]]]],
             ["o", 70, [1, 2], []], ["o", 72, [3, 4], []], ["l", [["o", 70, [5, 6], []], ["o", 13, 0, [["o", 72, [7, 8], []], ["o", 70, [0, 0], []]]]]]]
     out += [["o", 44, d, []] for d in DAYS] + [["o", 45, [3], []], ["o", 46, [3, 4], []]]
@@ -858,9 +913,12 @@ def run(tier: str, seed: int, replay=None) -> int:
         # known findings: narrow match = the class predicate AND the outcome the faithful model predicts (code 2); when the model
         # cannot be built, the defect behaviour recorded with the witness: C18-b ClassNotSerializableError at to_json,
         # C18-c ClassNotFoundError at from_json
-        recorded = {"C18-b": im == [20, 5], "C18-c": im == [20, 4]}
-        if nested and (code == 2 or (not model_ok and any(recorded[k] for k in kfs))):
-            kf_instances[kfs[0]] = kf_instances.get(kfs[0], 0) + 1
+        # C18-f (list nested deeper than ~490; outside the model's assumptions): recorded outcome RecursionError from from_json
+        recorded = {"C18-b": im == [20, 5], "C18-c": im == [20, 4], "C18-f": im == [30, 199]}
+        hit = [k for k in kfs if recorded[k] and (not model_ok or k == "C18-f")]
+        if nested and (code == 2 or hit):
+            k0 = hit[0] if hit else kfs[0]
+            kf_instances[k0] = kf_instances.get(k0, 0) + 1
             continue
         bad.append((d, im, code))
     rep.extra["distribution"] = dist
@@ -940,6 +998,9 @@ def spec_py(d) -> Any:
 
 def shrink(d, im):
     """greedy: replace the case by a failing sub-value / drop list elements and kids while it still fails (and is not K_local)"""
+    if d[0] == "deep":
+        return d
+
     def fails(x):
         return not has_local(x) and run_impl(x) != spec_py(x)
     if not fails(d):
